@@ -61,6 +61,9 @@ Wrappers == <<
   [n |-> "via-arg", d |-> "(def ff (fn [p]\n  (do p\n    _F)))\n", b |-> "(list 1\n  (ff 1))", a |-> "\n", where |-> "def"],
   [n |-> "via-try", d |-> "(def ff (fn [p]\n  (do p\n    _F)))\n", b |-> "(try\n  (ff 1)\n  (finally 2))", a |-> "\n", where |-> "def"],
   [n |-> "via-swap", d |-> "(def ff (fn [p]\n  (do p\n    _F)))\n", b |-> "(swap! (atom 1)\n  ff)", a |-> "\n", where |-> "def"],
+  [n |-> "via-update", d |-> "(def ff (fn [p]\n  (do p\n    _F)))\n", b |-> "(update {:a 1}\n  :a ff)", a |-> "\n", where |-> "def"],
+  [n |-> "via-update-in", d |-> "(def ff (fn [p]\n  (do p\n    _F)))\n", b |-> "(update-in {:a {:b 1}}\n  [:a :b] ff)", a |-> "\n", where |-> "def"],
+  [n |-> "via-update-in-vec", d |-> "(def ff (fn [p]\n  (do p\n    _F)))\n", b |-> "(update-in [[1] 2]\n  [0 0] ff)", a |-> "\n", where |-> "def"],
   [n |-> "via-tail", d |-> "(def ff (fn [p]\n  (if p\n    (ff nil)\n    _F)))\n", b |-> "(do 1\n  (ff 1))", a |-> "\n", where |-> "def"],
   [n |-> "via-two-fns", d |-> "(def ff (fn [p]\n  (do p\n    _F)))\n", b |-> "(def gg (fn []\n  (ff 1)))\n(gg)", a |-> "\n", where |-> "def"],
   [n |-> "macro-arg", d |-> "(defmacro twice (fn [e]\n  `(do ~e ~e)))\n", b |-> "(twice\n  ", a |-> ")\n", where |-> "call"] >>
